@@ -54,7 +54,7 @@ func ruleC04R2(r *Run) {
 		}
 		okSrc := true
 		for _, fa := range p.fieldAccesses("jsf64ctx") {
-			if fa.Fn != fn {
+			if !p.within(fa.Fn, fn) {
 				continue
 			}
 			switch fa.Kind {
@@ -78,7 +78,7 @@ func ruleC04R2(r *Run) {
 		// number of state words of the type
 		n := 0
 		for _, fa := range p.fieldAccesses("jsf64ctx") {
-			if p.fnName(fa.Fn) == "(*jsf64ctx).rand" && fa.Kind == "write" {
+			if p.hostName(fa.Fn) == "(*jsf64ctx).rand" && fa.Kind == "write" {
 				n++
 			}
 		}
@@ -183,7 +183,7 @@ func ruleC04R3(r *Run) {
 	if fn := r.MustFn("(*recordedBits).record"); fn != nil {
 		okAppend, okCount := false, false
 		for _, fa := range p.fieldAccesses("recordedBits") {
-			if fa.Fn != fn || fa.Kind != "write" {
+			if !p.within(fa.Fn, fn) || fa.Kind != "write" {
 				continue
 			}
 			st := fa.Instr.(*ssa.Store)
@@ -219,14 +219,14 @@ func ruleC04R3buf(r *Run) {
 			continue
 		}
 		n++
-		name := p.fnName(fa.Fn)
+		name := p.hostName(fa.Fn)
 		ok := name == "(*bufBitStream).drawBits" || name == "newBufBitStream"
 		r.Check(name+"#buf."+fa.Kind, fa.Instr.Pos(), ok, "buf accessed by the stream itself", "bufBitStream.buf is accessed in "+name+": something other than drawBits depends on unread words")
 	}
 	r.Floor("accesses to bufBitStream.buf", n, 4)
 	var adv *ssa.Store
 	for _, fa := range p.fieldAccesses("bufBitStream") {
-		if fa.Fn == fn && fa.Field == "buf" && fa.Kind == "write" {
+		if p.within(fa.Fn, fn) && fa.Field == "buf" && fa.Kind == "write" {
 			adv = fa.Instr.(*ssa.Store)
 		}
 	}
@@ -246,7 +246,7 @@ func ruleC04R3buf(r *Run) {
 	// the word read is buf[0]
 	okRead := false
 	for _, fa := range p.fieldAccesses("bufBitStream") {
-		if fa.Fn == fn && fa.Field == "buf" && fa.Kind == "read" {
+		if p.within(fa.Fn, fn) && fa.Field == "buf" && fa.Kind == "read" {
 			ld := fa.Instr.(*ssa.UnOp)
 			if ld.Referrers() != nil {
 				for _, ref := range *ld.Referrers() {
@@ -278,7 +278,7 @@ func ruleC04R44(r *Run) {
 	// D: fields of repeat stored by reject
 	D := map[string]bool{}
 	for _, fa := range p.fieldAccesses("repeat") {
-		if fa.Fn == reject && fa.Kind == "write" {
+		if p.within(fa.Fn, reject) && fa.Kind == "write" {
 			D[fa.Field] = true
 		}
 	}
@@ -291,10 +291,10 @@ func ruleC04R44(r *Run) {
 	r.OK("reject-state", reject.Pos(), "state written after a rejection: "+strings.Join(dl, ", "))
 	// reject is called only from rejecting loops (not from more)
 	for _, fa := range p.fieldAccesses("repeat") {
-		if !D[fa.Field] || fa.Fn == reject || p.fnName(fa.Fn) == "newRepeat" {
+		if !D[fa.Field] || p.within(fa.Fn, reject) || p.hostName(fa.Fn) == "newRepeat" {
 			continue
 		}
-		name := p.fnName(fa.Fn)
+		name := p.hostName(fa.Fn)
 		construct := name + "#" + fa.Field + "." + fa.Kind
 		switch fa.Field {
 		case "rejected":
@@ -351,7 +351,7 @@ func ruleC04R44(r *Run) {
 	// reject's own shape: count-1 (undoing the increment of more for the rejected attempt)
 	nDec := 0
 	for _, fa := range p.fieldAccesses("repeat") {
-		if fa.Fn == reject && fa.Field == "count" && fa.Kind == "write" {
+		if p.within(fa.Fn, reject) && fa.Field == "count" && fa.Kind == "write" {
 			st := fa.Instr.(*ssa.Store)
 			nDec++
 			byp := escapesFromEntry(reject, func(in ssa.Instruction) bool { return in == ssa.Instruction(st) }, false)
@@ -736,7 +736,7 @@ func ruleC04R5(r *Run) {
 	if fn := r.MustFn("(*recordedBits).removeGroup"); fn != nil {
 		okData, okN := false, false
 		for _, fa := range p.fieldAccesses("recordedBits") {
-			if fa.Fn == fn && fa.Field == "data" && fa.Kind == "write" {
+			if p.within(fa.Fn, fn) && fa.Field == "data" && fa.Kind == "write" {
 				ex := p.expr(fa.Instr.(*ssa.Store).Val)
 				okData = ex == "builtin:append($rec.data[:alloc(g).begin], $rec.data[alloc(g).end:])"
 				if !okData {
@@ -846,7 +846,7 @@ func ruleC04R47(r *Run) {
 				}
 				for f := range p.closureOf([]*ssa.Function{sc}) {
 					for _, fa := range p.fieldAccesses("T") {
-						if fa.Fn == f && fa.Kind == "write" {
+						if p.within(fa.Fn, f) && fa.Kind == "write" {
 							mods++
 						}
 					}
@@ -867,7 +867,7 @@ func ruleC04R47(r *Run) {
 		_ = n
 		// direct stores to fields of the outer T
 		for _, fa := range p.fieldAccesses("T") {
-			if fa.Fn == g && fa.Kind == "write" && p.resolve(fa.FA.X) == ssa.Value(outer) {
+			if p.within(fa.Fn, g) && fa.Kind == "write" && p.resolve(fa.FA.X) == ssa.Value(outer) {
 				r.Fail(name+"#outer-store."+fa.Field, fa.Instr.Pos(), "an attempt of find stores to "+fa.Field+" of the T it is drawn from")
 			}
 		}
